@@ -203,6 +203,41 @@ type c07Sc struct {
 	CT         string `json:"ct,omitempty"`          // request content type: form | multipart | multipart-file | multipart-ce (multipart + Content-Encoding)
 	NoPreParse bool   `json:"no_preparse,omitempty"` // DisablePreParseMultipartForm / ContinueReadBody(..., false)
 	Steps      []string `json:"steps,omitempty"`     // object-reuse: what is done, in order, with ONE Response (and Request) object
+	ExpectVia  string `json:"expect_via,omitempty"`  // server, with Expect: "" = no handler | continue-handler (Server.ContinueHandler returns true) | expect-handler (Server.ExpectHandler returns 100)
+	PerReqBase string `json:"per_req_base,omitempty"` // server, with PerReq and L > 0: "" = server-wide limit 64 MiB | default = server-wide limit left at 0 (4 MiB default)
+	ReduceMem  bool   `json:"reduce_mem,omitempty"`  // server: ReduceMemoryUsage (readers / writers released between reads)
+}
+
+// c07SrvTag names the server configuration dimensions (which code path reads the body, where the limit comes from) for
+// violation signatures.
+func c07SrvTag(sc c07Sc) string {
+	t := ""
+	if sc.Expect {
+		t += ":expect-100-continue"
+	}
+	switch {
+	case sc.PerReq && sc.L > 0 && sc.PerReqBase == "default":
+		t += ":limit-from-HeaderReceived-over-default"
+	case sc.PerReq && sc.L > 0:
+		t += ":limit-from-HeaderReceived"
+	case sc.PerReq:
+		t += ":default-limit-with-HeaderReceived-installed"
+	case sc.L <= 0:
+		t += ":default-limit"
+	}
+	return t
+}
+
+// c07SrvCfg: the full configuration (incl. the dimensions that are not part of the signature) for counters.
+func c07SrvCfg(sc c07Sc) string {
+	t := c07SrvTag(sc)
+	if sc.ExpectVia != "" {
+		t += ":" + sc.ExpectVia
+	}
+	if sc.ReduceMem {
+		t += ":reduce-memory"
+	}
+	return t
 }
 
 // c07KindTag names framing + content type for violation signatures.
@@ -217,12 +252,18 @@ func c07KindTag(sc c07Sc) string {
 	return t
 }
 
+// c07SrvSig builds a server violation signature: shape, what went wrong, and the server configuration it went wrong in.
+func c07SrvSig(sc c07Sc, what string) string {
+	return "server-" + c07KindTag(sc) + "-" + what + c07SrvTag(sc)
+}
+
 // c07Req is one request of a connection history: Ov is the per-request limit HeaderReceived returns for it (0 = no
 // override, the server limit L applies), Size the body size, Kind cl | chunked.
 type c07Req struct {
-	Ov   int    `json:"ov"`
-	Size int    `json:"size"`
-	Kind string `json:"kind"`
+	Ov     int    `json:"ov"`
+	Size   int    `json:"size"`
+	Kind   string `json:"kind"`
+	Expect bool   `json:"expect,omitempty"` // the request carries Expect: 100-continue
 }
 
 func (s c07Sc) String() string { b, _ := json.Marshal(s); return string(b) }
@@ -334,8 +375,39 @@ func c07AllX(b []byte) bool {
 }
 
 type c07Stats struct {
-	mu sync.Mutex
-	m  map[string]int64
+	mu     sync.Mutex
+	m      map[string]int64
+	broken map[string]bool // configurations (c07CfgKey) in which a finite over-limit Content-Length body was accepted
+}
+
+// c07CfgKey is the scenario without its body shape: everything that selects code path and limit.
+func c07CfgKey(sc c07Sc) string {
+	sc.Declared, sc.Total, sc.CSize = 0, 0, 0
+	return sc.String()
+}
+
+// c07Hazard: a Content-Length of 2^40. fasthttp allocates the declared size up front when no limit stops it, and a
+// failed 1 TiB allocation kills the process (and the evidence of every other scenario with it). These scenarios run in a
+// second phase and are skipped in a configuration whose limit was already shown not to be enforced for a FINITE
+// over-limit Content-Length body (the violation is reported there).
+func c07Hazard(sc c07Sc) bool { return sc.Kind == "cl" && sc.Declared >= 1<<30 }
+
+func (s *c07Stats) markBroken(sc c07Sc) {
+	if sc.Kind != "cl" || c07Hazard(sc) {
+		return
+	}
+	s.mu.Lock()
+	if s.broken == nil {
+		s.broken = map[string]bool{}
+	}
+	s.broken[c07CfgKey(sc)] = true
+	s.mu.Unlock()
+}
+
+func (s *c07Stats) isBroken(sc c07Sc) bool {
+	s.mu.Lock()
+	defer s.mu.Unlock()
+	return s.broken[c07CfgKey(sc)]
 }
 
 func (s *c07Stats) add(k string, n int64) {
@@ -403,7 +475,7 @@ func c07RunServer(r *vrt.R, st *c07Stats, sc c07Sc) {
 		head += "Expect: 100-continue\r\n"
 	}
 	proofOff, total := c07Body(g, head, sc, limit)
-	g.cap = limit*8 + 64<<20
+	g.cap = limit*8 + 8<<20 // far above anything a limited read may pull (<= 6 wire bytes per body byte + one buffer)
 	isForm := strings.HasPrefix(sc.CT, "multipart")
 	if isForm {
 		g.cap = limit*2 + 8<<20 // an unbounded pre-parse would spill file parts to disk: cut it off early
@@ -433,12 +505,29 @@ func c07RunServer(r *vrt.R, st *c07Stats, sc c07Sc) {
 		DisablePreParseMultipartForm: sc.NoPreParse,
 		MaxRequestBodySize: sc.L,
 		ReadBufferSize:     sc.RBS,
+		ReduceMemoryUsage:  sc.ReduceMem,
 		Logger:             c07NopLogger{},
 		NoDefaultDate:      true,
 	}
 	if sc.PerReq {
-		s.MaxRequestBodySize = 64 << 20
+		// L > 0: the limit comes from HeaderReceived, the server-wide one is far above it (64 MiB) or left at the default;
+		// L <= 0: HeaderReceived is installed but does not override (returns L), the server-wide field stays L (= default)
+		if sc.L > 0 {
+			s.MaxRequestBodySize = 64 << 20
+			if sc.PerReqBase == "default" {
+				s.MaxRequestBodySize = 0
+			}
+		}
 		s.HeaderReceived = func(*RequestHeader) RequestConfig { return RequestConfig{MaxRequestBodySize: sc.L} }
+	}
+	switch sc.ExpectVia {
+	case "":
+	case "continue-handler":
+		s.ContinueHandler = func(*RequestHeader) bool { return true }
+	case "expect-handler":
+		s.ExpectHandler = func(*RequestCtx) int { return StatusContinue }
+	default:
+		r.ToolError("unknown expect_via %q", sc.ExpectVia)
 	}
 	s.ServeConn(conn)
 	allCodes, _ := c07Statuses(conn.out.Bytes())
@@ -455,32 +544,36 @@ func c07RunServer(r *vrt.R, st *c07Stats, sc c07Sc) {
 	for _, n := range seen {
 		st.max("server_max_dispatched_body", int64(n))
 		if int64(n) > limit {
-			r.Violation("server-"+c07KindTag(sc)+"-body-over-limit-dispatched", what(fmt.Sprintf("handler received a %d byte body, limit %d", n, limit)), sc)
+			r.Violation(c07SrvSig(sc, "body-over-limit-dispatched"), what(fmt.Sprintf("handler received a %d byte body, limit %d", n, limit)), sc)
 		}
 	}
 	if g.runaway {
-		r.Violation("server-"+c07KindTag(sc)+"-keeps-pulling-past-limit", what("the server pulled more than 8*L+64 MiB from the connection"), sc)
+		r.Violation(c07SrvSig(sc, "keeps-pulling-past-limit"), what("the server pulled more than 8*L+8 MiB from the connection"), sc)
 		return
 	}
 	if over {
 		st.add("server_over_limit_cases", 1)
+		if tag := c07SrvCfg(sc); tag != "" {
+			st.add("server_over_limit_cases"+tag, 1)
+		}
 		r.Nontrivial("server-over-" + sc.String())
 		if calls != 0 {
-			r.Violation("server-"+c07KindTag(sc)+"-over-limit-request-dispatched", what("handler was called for a request whose body exceeds the limit"), sc)
+			st.markBroken(sc)
+			r.Violation(c07SrvSig(sc, "over-limit-request-dispatched"), what("handler was called for a request whose body exceeds the limit"), sc)
 		}
 		if len(codes) != 1 || codes[0] < 400 {
-			r.Violation("server-"+c07KindTag(sc)+"-over-limit-no-error-response", what("expected exactly one error response (status >= 400)"), sc)
+			r.Violation(c07SrvSig(sc, "over-limit-no-error-response"), what("expected exactly one error response (status >= 400)"), sc)
 		} else {
 			st.add(fmt.Sprintf("server_over_limit_status_%d", codes[0]), 1)
 		}
 		if conn.closed == 0 {
-			r.Violation("server-"+c07KindTag(sc)+"-over-limit-not-closed", what("connection was not closed after the error response"), sc)
+			r.Violation(c07SrvSig(sc, "over-limit-not-closed"), what("connection was not closed after the error response"), sc)
 		}
 		if conn.readsAfterWrite > 0 {
-			r.Violation("server-"+c07KindTag(sc)+"-over-limit-reads-after-error-response", what("server kept reading after the error response"), sc)
+			r.Violation(c07SrvSig(sc, "over-limit-reads-after-error-response"), what("server kept reading after the error response"), sc)
 		}
 		if b := c07Bound(sc, proofOff); g.pulled > b {
-			r.Violation("server-"+c07KindTag(sc)+"-pulled-past-limit", what(fmt.Sprintf("pulled %d bytes, bound %d (= offset %d where the excess is proven + read buffer)", g.pulled, b, proofOff)), sc)
+			r.Violation(c07SrvSig(sc, "pulled-past-limit"), what(fmt.Sprintf("pulled %d bytes, bound %d (= offset %d where the excess is proven + read buffer)", g.pulled, b, proofOff)), sc)
 		}
 		st.max("server_max_pulled_minus_proof", g.pulled-proofOff)
 	} else {
@@ -586,6 +679,7 @@ func c07JudgeRead(r *vrt.R, st *c07Stats, sc c07Sc, who string, g *c07Gen, proof
 		st.add(who+"_over_limit_cases", 1)
 		r.Nontrivial(who + "-over-" + sc.String())
 		if err == nil {
+			st.markBroken(sc)
 			r.Violation(who+"-"+c07KindTag(sc)+"-over-limit-accepted", what("a body larger than the limit was accepted"), sc)
 		} else if !errors.Is(err, ErrBodyTooLarge) {
 			r.Violation(who+"-"+c07KindTag(sc)+"-over-limit-error-is-not-ErrBodyTooLarge", what("expected ErrBodyTooLarge"), sc)
@@ -626,6 +720,13 @@ func c07OvName(ov, L int) string {
 	return "smaller"
 }
 
+func c07ExpTag(q c07Req) string {
+	if q.Expect {
+		return "+expect-100-continue"
+	}
+	return ""
+}
+
 func c07RunHistory(r *vrt.R, st *c07Stats, sc c07Sc) {
 	L := sc.L
 	g := &c07Gen{perRead: sc.PerRead}
@@ -644,6 +745,9 @@ func c07RunHistory(r *vrt.R, st *c07Stats, sc c07Sc) {
 		head := "POST /r" + strconv.Itoa(i) + " HTTP/1.1\r\nHost: h\r\nX-Idx: " + strconv.Itoa(i) + "\r\n"
 		if q.Ov > 0 {
 			head += "X-Limit: " + strconv.Itoa(q.Ov) + "\r\n"
+		}
+		if q.Expect {
+			head += "Expect: 100-continue\r\n"
 		}
 		one := c07Sc{Kind: q.Kind, Total: int64(q.Size), Declared: int64(q.Size), CSize: 1500}
 		if one.CSize > one.Total {
@@ -689,7 +793,13 @@ func c07RunHistory(r *vrt.R, st *c07Stats, sc c07Sc) {
 		NoDefaultDate:      true,
 	}
 	s.ServeConn(conn)
-	codes, _ := c07Statuses(conn.out.Bytes())
+	allCodes, _ := c07Statuses(conn.out.Bytes())
+	var codes []int
+	for _, c := range allCodes {
+		if c != 100 { // interim responses to Expect: 100-continue
+			codes = append(codes, c)
+		}
+	}
 	what := func(msg string) string {
 		return fmt.Sprintf("%s: %s (handler calls (request index, body bytes) %v, statuses %v, pulled %d, closed %d)", sc, msg, calls, codes, g.pulled, conn.closed)
 	}
@@ -723,7 +833,7 @@ func c07RunHistory(r *vrt.R, st *c07Stats, sc c07Sc) {
 		}
 		q := sc.Hist[c.idx]
 		if int64(c.n) > exps[c.idx].limit {
-			r.Violation(fmt.Sprintf("server-keepalive-%s-body-over-limit-dispatched:own-override-%s-after-%s", q.Kind, c07OvName(q.Ov, L), prev(c.idx)),
+			r.Violation(fmt.Sprintf("server-keepalive-%s%s-body-over-limit-dispatched:own-override-%s-after-%s", q.Kind, c07ExpTag(q), c07OvName(q.Ov, L), prev(c.idx)),
 				what(fmt.Sprintf("request %d was dispatched with a %d byte body; the limit in force for it is %d (its own override %d, server limit %d)", c.idx, c.n, exps[c.idx].limit, q.Ov, L)), sc)
 		}
 		if firstOver >= 0 && c.idx > firstOver {
@@ -758,7 +868,10 @@ func c07RunHistory(r *vrt.R, st *c07Stats, sc c07Sc) {
 	q := sc.Hist[firstOver]
 	st.add("history_over_limit_own_"+c07OvName(q.Ov, L)+"_after_"+prev(firstOver), 1)
 	r.NontrivialHash(c07Hash([]byte(sc.String())))
-	tag := fmt.Sprintf("%s:own-override-%s-after-%s", q.Kind, c07OvName(q.Ov, L), prev(firstOver))
+	tag := fmt.Sprintf("%s%s:own-override-%s-after-%s", q.Kind, c07ExpTag(q), c07OvName(q.Ov, L), prev(firstOver))
+	if q.Expect {
+		st.add("history_over_limit_expect_request", 1)
+	}
 	if len(codes) != served+1 || codes[served] < 400 {
 		r.Violation("server-keepalive-over-limit-no-error-response-"+tag, what(fmt.Sprintf("request %d exceeds its limit %d: expected %d responses, the last one an error", firstOver, exps[firstOver].limit, served+1)), sc)
 	}
@@ -900,13 +1013,16 @@ func c07RunReuse(r *vrt.R, st *c07Stats, sc c07Sc) {
 
 // c07Histories: all histories of <= depth requests in which every request but the last is within the limit in force
 // for it (an over-limit request ends the connection, so longer continuations add nothing).
-func c07Histories(L, depth int) [][]c07Req {
+func c07Histories(L, depth int, expect bool) [][]c07Req {
 	lo, hi := L/4, 4*L
 	var opts []c07Req
 	for _, ov := range []int{0, hi, lo} {
 		for _, size := range []int{lo, lo + 1, L, L + 1, hi, hi + 1} {
 			for _, kind := range []string{"cl", "chunked"} {
-				opts = append(opts, c07Req{ov, size, kind})
+				opts = append(opts, c07Req{Ov: ov, Size: size, Kind: kind})
+				if expect {
+					opts = append(opts, c07Req{Ov: ov, Size: size, Kind: kind, Expect: true})
+				}
 			}
 		}
 	}
@@ -1404,22 +1520,52 @@ func c07Scenarios(r *vrt.R) []c07Sc {
 	for _, L := range append(append([]int{}, limits...), 0, -1) {
 		bodyShapes("server", L, false)
 	}
-	// server: body read after Expect: 100-continue, and limit configured per request (default buffers only)
+	// server configuration product (default buffers): which code path reads the body {plain, Expect: 100-continue with no
+	// handler / ContinueHandler / ExpectHandler} x where the limit in force comes from {server field, HeaderReceived over a
+	// 64 MiB field, HeaderReceived over a defaulted field; for L <= 0: defaulted field, defaulted field with a
+	// non-overriding HeaderReceived installed} x ReduceMemoryUsage {off, on}, over every body shape of the grid.
 	srv := len(out)
 	save1, save2 := rbss, perReads
 	rbss, perReads = []int{0}, []int{0}
-	for _, L := range limits {
+	for _, L := range append(append([]int{}, limits...), 0, -1) {
 		bodyShapes("server", L, false)
 	}
-	n := len(out)
-	for i := srv; i < n; i++ {
-		a, b := out[i], out[i]
-		out[i].Expect = true
-		a.PerReq = true
-		b.PerReq, b.Expect = true, true
-		out = append(out, a)
-		if r.Thorough() {
-			out = append(out, b)
+	base := append([]c07Sc{}, out[srv:]...)
+	out = out[:srv] // the plain / server-field / no-ReduceMemoryUsage combination is part of the main grid above
+	type c07Src struct {
+		perReq bool
+		base   string
+	}
+	for _, b := range base {
+		if eff := c07EffLimit(b); !r.Thorough() && eff >= 1<<20 {
+			// quick tier, limits of 1 MiB and the 4 MiB default: only the shapes at and just above the limit and the endless
+			// ones (Content-Length L / L+1 / 2^40, one chunk of L, one chunk of L+1, endless chunks of L / L+1 bytes); the
+			// thorough tier runs every shape in every configuration
+			switch {
+			case b.Kind == "cl" && b.Total == eff-1 && eff > 1<<20,
+				b.Kind == "chunked" && b.CSize < eff,
+				b.Kind == "chunked" && !(b.Total == eff+1 || b.Total < 0 || (b.Total == eff && b.L >= 0)):
+				continue
+			}
+		}
+		srcs := []c07Src{{false, ""}, {true, ""}, {true, "default"}}
+		if b.L <= 0 {
+			srcs = []c07Src{{false, ""}, {true, ""}}
+		}
+		for _, via := range []string{"-", "", "continue-handler", "expect-handler"} {
+			for _, src := range srcs {
+				for _, rm := range []bool{false, true} {
+					if via == "-" && !src.perReq && !rm {
+						continue
+					}
+					v := b
+					if via != "-" {
+						v.Expect, v.ExpectVia = true, via
+					}
+					v.PerReq, v.PerReqBase, v.ReduceMem = src.perReq, src.base, rm
+					out = append(out, v)
+				}
+			}
 		}
 	}
 	rbss, perReads = save1, save2
@@ -1443,6 +1589,7 @@ func c07Scenarios(r *vrt.R) []c07Sc {
 			for _, L := range limits {
 				for _, ct := range []string{"form", "multipart", "multipart-file", "multipart-ce"} {
 					for _, npp := range []bool{false, true} {
+						from := len(out)
 						seen := map[int64]bool{}
 						for _, d := range []int64{int64(L) - 1, int64(L), int64(L) + 1, int64(L) + 5000, 4*int64(L) + 7} {
 							if strings.HasPrefix(ct, "multipart") && d < minForm {
@@ -1458,6 +1605,13 @@ func c07Scenarios(r *vrt.R) []c07Sc {
 						cs := int64(4096)
 						out = append(out, c07Sc{Mode: mode, L: L, Kind: "chunked", Total: int64(L) + 1, CSize: min(cs, int64(L)+1), CT: ct, NoPreParse: npp})
 						out = append(out, c07Sc{Mode: mode, L: L, Kind: "chunked", Total: int64(L), CSize: min(cs, int64(L)), CT: ct, NoPreParse: npp})
+						if mode == "server" { // the same again through the Expect: 100-continue path (Request.ContinueReadBody with pre-parsing as configured)
+							for i, n := from, len(out); i < n; i++ {
+								v := out[i]
+								v.Expect = true
+								out = append(out, v)
+							}
+						}
 					}
 				}
 			}
@@ -1477,9 +1631,23 @@ func c07Scenarios(r *vrt.R) []c07Sc {
 		}
 	}
 	// connection histories with per-request limits (HeaderReceived): server limit L, overrides 4L and L/4
+	// (requests without Expect to depth 3; requests with / without Expect: 100-continue to depth 2, thorough: depth 3 at L = 4096)
 	for _, L := range vrt.Pick(r, []int{4096}, []int{100, 4096, 65536}) {
-		for _, h := range c07Histories(L, 3) {
+		for _, h := range c07Histories(L, 3, false) {
 			out = append(out, c07Sc{Mode: "server-history", L: L, Hist: h})
+		}
+		d := 2
+		if r.Thorough() && L == 4096 {
+			d = 3
+		}
+		for _, h := range c07Histories(L, d, true) {
+			any := false
+			for _, q := range h {
+				any = any || q.Expect
+			}
+			if any {
+				out = append(out, c07Sc{Mode: "server-history", L: L, Hist: h})
+			}
 		}
 	}
 	// heads
@@ -1544,15 +1712,17 @@ func TestVerif_C07(t *testing.T) {
 		r.Eval(1)
 		return
 	}
-	r.Rule("every (mode, limit L, ReadBufferSize, network read size, body shape) scenario of the listed grid: modes = Server.ServeConn with MaxRequestBodySize (incl. 0 and -1 = 4 MiB default; also with Expect: 100-continue and with the limit set per request by HeaderReceived), " +
-		"HostClient/Client.Do with MaxResponseBodySize, Request/Response.ReadLimitBody; L in {1,2,100,4095,4096,4097,1 MiB}; shapes = Content-Length L-1/L/L+1/2^40-with-endless-payload, " +
+	r.Rule("every (mode, limit L, ReadBufferSize, network read size, body shape) scenario of the listed grid: modes = Server.ServeConn with MaxRequestBodySize (incl. 0 and -1 = 4 MiB default), " +
+		"HostClient/Client.Do with MaxResponseBodySize, Request/Response.ReadLimitBody; for the server additionally (default buffers) the full product, over every L incl. 0 and -1 and every body shape, of " +
+		"body-reading path {plain, Expect: 100-continue without handler, with ContinueHandler=true, with ExpectHandler=100} x limit source {server field (positive or defaulted), HeaderReceived override over a 64 MiB field, HeaderReceived override over a defaulted field, defaulted field with a non-overriding HeaderReceived installed} x ReduceMemoryUsage {off, on}; " +
+		"L in {1,2,100,4095,4096,4097,1 MiB}; shapes = Content-Length L-1/L/L+1/2^40-with-endless-payload, " +
 		"chunked with chunk size 1/L/L+1/4096 and total L-1/L/L+1/L+5000/endless, identity-until-close L-1/L/L+1/L+5000/endless (responses); all streams come from a lazy generator that counts pulled bytes. " +
 		"Oracle: nothing larger than L is returned or dispatched; over-limit => ErrBodyTooLarge (client, readers) or exactly one status>=400 response, close and no further read (server); " +
 		"pulled bytes <= offset where the stream proves the excess + ReadBufferSize + 32 (+1 KiB initial buffer for identity bodies). " +
-		"Content types: the server and Request.ReadLimitBody / ContinueReadBody Content-Length grid (L-1/L/L+1/L+5000/4L+7/2^40-endless, plus chunked L/L+1) again with application/x-www-form-urlencoded, multipart/form-data carrying a well-formed form of exactly that size (value field / file part) and multipart + Content-Encoding, each with multipart pre-parsing on and off. "+
+		"Content types: the server and Request.ReadLimitBody / ContinueReadBody Content-Length grid (L-1/L/L+1/L+5000/4L+7/2^40-endless, plus chunked L/L+1) again with application/x-www-form-urlencoded, multipart/form-data carrying a well-formed form of exactly that size (value field / file part) and multipart + Content-Encoding, each with multipart pre-parsing on and off, and (server) each again with Expect: 100-continue. "+
 		"Object reuse: every sequence of 2-3 steps over {streaming HostClient, non-streaming HostClient, StreamBody+ReadLimitBody, ReadLimitBody} x {body L, body L+1} + {Reset, Release+Acquire} on ONE Response/Request object, x {Content-Length, chunked, identity}: "+
 		"every step that is not a streamed read (by the documented state: StreamBody set by a streaming use stays until Reset/Release) is judged like a fresh object. "+
-		"Connection histories: every sequence of <= 3 requests on one keep-alive connection over {no per-request limit, HeaderReceived override 4L, override L/4} x body size {L/4, L/4+1, L, L+1, 4L, 4L+1} x {Content-Length, chunked} "+
+		"Connection histories: every sequence of <= 3 requests on one keep-alive connection over {no per-request limit, HeaderReceived override 4L, override L/4} x body size {L/4, L/4+1, L, L+1, 4L, 4L+1} x {Content-Length, chunked} (and, to depth 2 in the quick tier / 3 in the thorough tier, x {without, with Expect: 100-continue}) "+
 		"in which only the last request may exceed its limit: each request is bounded by the limit in force for IT (its own override, else the server limit), an over-limit request gets an error response + close and nothing after it is dispatched. "+
 		"Request heads of ReadBufferSize-1/+0/+1/x2/x10 bytes (padding in URI / one value / many lines; delivered whole, 1 or 7 bytes per read) => 431 + close when larger than the buffer, and no more than one buffer pulled. " +
 		"Body*WithLimit helpers on gzip/deflate/br/zstd payloads of L-1/L/L+1/2L+3/10 MiB zero bytes (ratio >= 1000) and MultipartFormWithLimit on plain/gzip/streamed forms of L-1/L/L+1/L+1000/10-20 MiB: never more than L bytes returned, ErrBodyTooLarge above L. " +
@@ -1589,29 +1759,50 @@ func TestVerif_C07(t *testing.T) {
 			par = append(par, s)
 		}
 	}
-	scs = par
-	r.Par(len(scs)+1, func(i int) {
-		if i == len(scs) {
-			for _, s := range seq {
-				c07Run(r, st, s)
-				r.Eval(1)
+	// phase 1: everything but the 2^40 Content-Length scenarios; phase 2: those (see c07Hazard)
+	var ph1, ph2 []c07Sc
+	for _, s := range par {
+		if c07Hazard(s) {
+			ph2 = append(ph2, s)
+		} else {
+			ph1 = append(ph1, s)
+		}
+	}
+	r.Set("scenarios_phase2_huge_content_length", len(ph2))
+	for phase, scs := range [][]c07Sc{ph1, ph2} {
+		r.Par(len(scs)+1, func(i int) {
+			if i == len(scs) {
+				if phase == 0 {
+					for _, s := range seq {
+						c07Run(r, st, s)
+						r.Eval(1)
+					}
+				}
+				return
 			}
-			return
-		}
-		if r.Expired() {
-			r.NotExhaustive("time budget reached before scenario " + strconv.Itoa(i))
-			return
-		}
-		t0 := time.Now()
-		c07Run(r, st, scs[i])
-		if d := time.Since(t0); d > 2*time.Second && os.Getenv("C07_TIMING") != "" {
-			fmt.Fprintf(os.Stderr, "SLOW %v %s\n", d, scs[i])
-		}
-		r.Eval(1)
-		if i%97 == 0 {
-			r.Sample(scs[i])
-		}
-	})
+			if r.Expired() {
+				r.NotExhaustive("time budget reached before scenario " + strconv.Itoa(i))
+				return
+			}
+			if phase == 1 && st.isBroken(scs[i]) {
+				st.add("huge_content_length_scenarios_skipped_in_configurations_already_violating", 1)
+				return
+			}
+			t0 := time.Now()
+			c07Run(r, st, scs[i])
+			if d := time.Since(t0); os.Getenv("C07_TIMING") != "" {
+				k := scs[i].Mode
+				if k == "server" {
+					k += fmt.Sprintf("/L=%d/%s/cs=%d", scs[i].L, scs[i].Kind+scs[i].CT, scs[i].CSize)
+				}
+				st.add("timing_ms_"+k, d.Milliseconds())
+			}
+			r.Eval(1)
+			if i%97 == 0 {
+				r.Sample(scs[i])
+			}
+		})
+	}
 	st.mu.Lock()
 	for k, v := range st.m {
 		r.Set(k, v)
@@ -1620,7 +1811,9 @@ func TestVerif_C07(t *testing.T) {
 	for _, k := range []string{"server_within_limit_accepted", "server_over_limit_cases", "hostclient_within_limit_accepted", "client_within_limit_accepted",
 		"Response.ReadLimitBody_within_limit_accepted", "Request.ReadLimitBody_within_limit_accepted", "head_within_buffer_accepted", "head_over_buffer_cases",
 		"decomp_within_limit_returned_intact", "decomp_bomb_cases", "multipart_within_limit_returned_intact", "multipart_over_limit_cases",
-		"history_over_limit_cases", "history_all_within_limit", "history_over_limit_own_none_after_larger",
+		"history_over_limit_cases", "history_all_within_limit", "history_over_limit_own_none_after_larger", "history_over_limit_expect_request",
+		"server_over_limit_cases:expect-100-continue:default-limit", "server_over_limit_cases:expect-100-continue:default-limit:continue-handler", "server_over_limit_cases:expect-100-continue:limit-from-HeaderReceived-over-default:expect-handler:reduce-memory",
+		"server_over_limit_cases:default-limit-with-HeaderReceived-installed", "server_over_limit_cases:expect-100-continue:limit-from-HeaderReceived",
 		"reuse_nonstreamed_over_limit_after_streaming_use_and_clear", "reuse_nonstreamed_within_limit_accepted", "reuse_streamed_steps"} {
 		if st.m[k] == 0 && !r.Expired() {
 			st.mu.Unlock()
